@@ -903,56 +903,29 @@ func (z *Decimal) fmaWide(p *Decimal, e int64, u *Decimal) *Decimal {
 	ue := int64(u.exp) - b
 	switch {
 	case ue < MinExp:
-		// (b > 0) u lies more than 2**32 digits below the product: it cannot
-		// bring the sum back into range
-		z.neg = p.neg
-		z.acc = makeAcc(!z.neg)
-		z.form = inf
-		return z
-
-	case ue >= MaxExp:
-		// (b < 0) The product lies at least 2**32-1 digits below u's leading
-		// digit, that is below all of u's digits and below z's rounding
-		// position: the sum is u, a hair more or a hair less. (This includes
-		// ue == MaxExp, which would leave no room for a carry below.) Round u with
-		// enough zero digits below it for the sticky bit to count, after
-		// borrowing one unit of the last of them if the product is subtracted.
-		sub := p.neg != u.neg
-		mode := z.mode
-		if u.MinPrec() <= uint(z.prec) {
-			// u needs no rounding itself. Unless the mode rounds away from u
-			// in the direction of the product, the result is u, inexact.
-			towardZero := mode == ToZero || mode == ToPositiveInf && u.neg || mode == ToNegativeInf && !u.neg
-			if mode == ToNearestEven || mode == ToNearestAway || towardZero != sub {
-				acc := makeAcc(p.neg) // (p may be z)
-				z.Set(u)
-				z.acc = acc
-				return z
-			}
-		}
-		n := int(z.prec/_DW) + 2
-		if len(u.mant) >= n {
-			n = len(u.mant) + 1
-		}
-		uexp, uneg, m := u.exp, u.neg, len(u.mant)
-		mant := z.mant.make(n) // if this is u.mant, copy moves it up in place
-		copy(mant[n-m:], u.mant)
-		mant[:n-m].clear()
-		if sub {
-			sub10VW(mant, mant, 1)
-		}
-		z.mant = mant
-		z.neg = uneg
-		z.mode = mode
-		z.form = finite
-		z.setExpAndRound(int64(uexp)-dnorm(z.mant), 1)
-		return z
+		// (b > 0) u lies at least 2**32 digits below the product's leading
+		// digit: below its digits and below z's rounding position. The sum
+		// is the product, a hair more or a hair less (which matters: a hair
+		// less than 10**MaxExp is in range).
+		return z.addTiny(p.mant, e, p.neg, u.neg)
+	case ue > MaxExp:
+		// (b < 0) the same with the product at least 2**32 digits below u
+		return z.addTiny(u.mant, int64(u.exp), u.neg, p.neg)
 	}
 	p.exp = int32(e - b)
 	u2 := *u // (shares u's mantissa, which is only read)
 	u2.exp = int32(ue)
 	z.Add(p, &u2)
-	if z.form != finite {
+	switch {
+	case z.form == inf && b < 0:
+		// The sum of u, shifted up to the end of the range, and the tiny
+		// product was rounded up to a power of ten, out of the shifted
+		// range but not out of the real one.
+		z.form = finite
+		z.mant = z.mant.setUint64(_DB / 10)
+		z.exp = int32(MaxExp + 1 + b)
+		return z
+	case z.form != finite:
 		return z
 	}
 	// shift back
@@ -970,6 +943,48 @@ func (z *Decimal) fmaWide(p *Decimal, e int64, u *Decimal) *Decimal {
 	default:
 		z.exp = int32(t)
 	}
+	return z
+}
+
+// addTiny sets z to the rounded value of ±0.m×10**exp plus a non-zero amount
+// with the sign tinyNeg that is too small to reach any digit of m or z's
+// rounding digit, and returns z. m is normalized and may be z's own
+// mantissa; exp may lie outside the exponent range.
+func (z *Decimal) addTiny(m dec, exp int64, neg, tinyNeg bool) *Decimal {
+	sub := neg != tinyNeg
+	if uint64(len(m))*_DW-uint64(m.trailingZeroDigits()) <= uint64(z.prec) {
+		// m needs no rounding itself. Unless the mode rounds away from it in
+		// the direction of the tiny amount, the result is m, inexact.
+		towardZero := z.mode == ToZero || z.mode == ToPositiveInf && neg || z.mode == ToNegativeInf && !neg
+		if z.mode == ToNearestEven || z.mode == ToNearestAway || towardZero != sub {
+			z.mant = z.mant.set(m)
+			z.neg = neg
+			z.form = finite
+			z.setExpAndRound(exp, 0)
+			if z.form == finite {
+				z.acc = makeAcc(tinyNeg)
+			}
+			return z
+		}
+	}
+	// Round m with enough zero digits below it for the sticky bit to count,
+	// after borrowing one unit of the last of them if the tiny amount is
+	// subtracted.
+	n := int(z.prec/_DW) + 2
+	if len(m) >= n {
+		n = len(m) + 1
+	}
+	k := len(m)
+	mant := z.mant.make(n) // if this is m's array, copy moves it up in place
+	copy(mant[n-k:], m)
+	mant[:n-k].clear()
+	if sub {
+		sub10VW(mant, mant, 1)
+	}
+	z.mant = mant
+	z.neg = neg
+	z.form = finite
+	z.setExpAndRound(exp-dnorm(z.mant), 1)
 	return z
 }
 
